@@ -35,7 +35,7 @@ VARIABLES P,        \* the program
 vars == <<P, phase, call, grad, d, ordJ, rows, sweeps, pending>>
 
 None  == <<>>
-NoCall == [tensors |-> <<>>, inputs |-> {}, k |-> 0, w |-> <<>>, pre |-> {}]
+NoCall == [tensors |-> <<>>, inputs |-> {}, k |-> 0, w |-> <<>>, pre |-> {}, m |-> 0]
 EmptyDict == [type |-> "Empty", map |-> <<>>]
 
 Plus(g, u) == IF g = None THEN u ELSE VAdd(g, u)
@@ -70,13 +70,14 @@ ChooseCall ==
          /\ NRowsOf(ts) <= MaxRows
          /\ \E pre \in {{}, ins} :
               /\ call' = [tensors |-> ts, inputs |-> ins, k |-> k,
-                          w |-> [r \in 1..NRowsOf(ts) |-> Weight(r)], pre |-> pre]
+                          w |-> [r \in 1..NRowsOf(ts) |-> Weight(r)], pre |-> pre,
+                          m |-> NRowsOf(ts)]
               /\ grad' = [l \in Leaves(P) |-> IF l \in pre THEN PreGrad(P[l].size) ELSE None]
     /\ phase' = "init"
     /\ UNCHANGED <<P, d, ordJ, rows, sweeps, pending>>
 
 \* ------------------------------------------------------------------ pipeline (implementation layer)
-M       == NRowsOf(call.tensors)
+M       == call.m          \* number of Jacobian rows (backward: scalars of `tensors`; mtl: #losses)
 Cap     == IF call.k = 0 THEN M ELSE call.k
 NSweeps == (M + Cap - 1) \div Cap
 RowOff  == OutOffsets(Sizes(P), call.tensors)      \* row offset of each tensor
